@@ -28,6 +28,10 @@ CLAIMED = {
          "static analysis: who-may-read/who-may-call rules, path enumeration with branch intervals, CFG must-pass-through"),
  'C19': ("decides for all documents: number and kind mapping tables of the three converters (u64 before i64 before f64; exact integer conversions; non-finite -> Err in the byte walker), the object-only variant returns None exactly for array/scalar headers and shares the element converter. Structural fidelity of whole documents is NOT decided",
          "static analysis: table extraction from MIR switch arms and constructor aggregates"),
+ 'C09': ("decides for all inputs: printer and grammar token tables agree, && nests under ||, nested &&/|| operands are printed in parentheses, whole-input check on every Ok, complete combinators only, every index/slice of the scanners is safe on every path (inductive cursor invariants + callee lemma) so no byte string panics there, scanner and decoder escape widths agree, every literal kind incl. the empty string has an alternative, no alternative of any alt() is shadowed by an earlier prefix match; grammar recursion and left-deep accumulation are known findings. Completeness over the whole grammar is NOT decided",
+         "static analysis: nom combinator table extraction from MIR, format-template decoding, panic-site provers with inductive loop invariants, call-graph SCCs"),
+ 'C16': ("decides for all inputs: key-path cone panic inventory (shared scanners proven as in C09), whole-input check, alternative order index/quoted/plain with no shadowing, printer shapes (Display between plain quotes, { , }), complete combinators, escape widths. Completeness and escape decoding results are NOT decided",
+         "static analysis: panic-site provers with inductive invariants, combinator and format-template table extraction"),
 }
 NOT_APPLICABLE = {
 }
